@@ -1353,6 +1353,11 @@ pub fn compare_effect(pre: &Obs, post: &Obs, eff: &Effect, a: &Action, names: &N
             if l.key_owner != a.sender {
                 if let Some(old) = pre.bucket_at(&l.key_owner, *bid) {
                     f.push(Finding::new(
+                        "C04.foreign_bucket_destroyed",
+                        "buy_listing",
+                        format!("buy_listing by {}: destroyed bucket {} of {} ({}), which the sender does not own", a.sender, bid, l.key_owner, old.funds.describe()),
+                    ));
+                    f.push(Finding::new(
                         "C03.bucket_overwritten",
                         "buy_listing",
                         format!(
